@@ -147,6 +147,19 @@ class ModuleInfo(object):
             elif isinstance(n, ast.Import):
                 for a in n.names:
                     self.mod_imports[a.asname or a.name] = a.name
+        # module-level statements that change a module-level binding in place after it has been made (`TABLE.update({...})`,
+        # `TABLE[k] = v`, `NAMES += [...]`): part of the value every reader sees
+        self.mutations = {}
+        for n in self.tree.body:
+            tgt = None
+            if isinstance(n, ast.Expr) and isinstance(n.value, ast.Call) and isinstance(n.value.func, ast.Attribute) and isinstance(n.value.func.value, ast.Name):
+                tgt = n.value.func.value.id
+            elif isinstance(n, ast.Assign) and len(n.targets) == 1 and isinstance(n.targets[0], ast.Subscript) and isinstance(n.targets[0].value, ast.Name):
+                tgt = n.targets[0].value.id
+            elif isinstance(n, ast.AugAssign) and isinstance(n.target, ast.Subscript) and isinstance(n.target.value, ast.Name):
+                tgt = n.target.value.id
+            if tgt is not None and tgt in self.const_nodes:
+                self.mutations.setdefault(tgt, []).append(n)
         # imports inside function bodies (e.g. `from copy import deepcopy`)
         for n in ast.walk(self.tree):
             if isinstance(n, ast.ImportFrom) and n.module and n not in self.tree.body:
@@ -270,7 +283,9 @@ class Repo(object):
             raise AnalysisError('constant import chain too deep: %s.%s' % key)
         m = self.module(module)
         val = _NOCONST
-        if name in m.const_nodes:
+        if name in m.const_nodes and name in getattr(m, 'mutations', {}):
+            val = _NOCONST          # changed in place by later module-level statements: the evaluator builds it (module_value)
+        elif name in m.const_nodes:
             val = self._fold(m, m.const_nodes[name])
         elif name in m.imports:
             mod, nm = m.imports[name]
